@@ -468,9 +468,13 @@ namespace
             return;
         if ((int)h.size() >= maxdepth)
             return;
-        // two SETACTs in a row for the same timer, or SETACT as the last op, add nothing: prune the latter
+        // thorough: the deepest level is a seeded 1/4 sample
+        int den = (vf::thorough() && (int)h.size() + 1 == maxdepth) ? 4 : 1;
+        uint64_t hh = den > 1 ? vf::hash_bytes(h.data(), h.size() * sizeof(int), vf::seed()) : 0;
         for (int c = 0; c < ALPHA; c++)
         {
+            if (den > 1 && vf::mix(hh, (uint64_t)c) % (uint64_t)den != 0)
+                continue;
             h.push_back(c);
             dfs(h, maxdepth);
             h.pop_back();
